@@ -12,6 +12,7 @@ correspondence alone ties the model to the code (no alarm is raised for that by 
 What is trusted here: this translator (about 400 lines) and Rt.lean's rendering of the built-ins.
 """
 import ast
+import re
 import os
 
 REPO = os.environ.get('CARDUTIL_REPO') or os.environ.get('VERIF_REPO') or '/repo'
@@ -117,6 +118,13 @@ TARGETS = [
      {'files': ('input_data', 'output_data'), 'params': [('self_in', 'bytes'), ('self_out', 'bytes')]}),
     # the column slicing of the parameter reader (read-only method: expanded flag, decoder, table index, layouts are parameters)
     ('cardutil/mciipm.py', 'IpmParamReader._get_param_field', {'record': 'bytes', 'field': 'str'}, 'str', {'readonly': True}),
+    # the WHOLE of _iso8583_to_dict: header split (struct.unpack with a computed format, inside a try), bitmap, MTI check,
+    # then the element loop; the element decoder and the bitmap reader are parameters
+    ('cardutil/iso8583.py', '_iso8583_to_dict', {'return_values': ('dict', 'str', 'pyval')}, ('dict', 'str', 'pyval'),
+     {'params': [('message', 'bytes'), ('bit_config', ('dict', 'str', 'cfg')), ('encoding', 'decoder'), ('hex_bitmap', 'bool')],
+      'extern': {'_iso8583_to_field': ([('bit', 'int'), ('bit_config', 'cfg'), ('message_data', 'bytes'),
+                                        ('encoding', 'decoder')], ('tuple', ('dict', 'str', 'pyval'), 'int'), True),
+                 '_get_bitmap_list': ([('binary_bitmap', 'bytes')], ('list', 'bool'), False)}}),
     # FRAGMENTS of functions whose other statements call the cipher library: the decimalisation at the end of
     # calculate_pvv (from the first assignment to values_pass1, with the ciphertext `ct` as parameter), and the
     # combination loop at the start of get_zone_master_key (up to the assignment to binary_key, returning p1)
@@ -808,6 +816,8 @@ class Translator:
                     return c, 'int'
                 if t == 'anyval':
                     return self.hoist(f'(Rt.anyInt Gen.intClasses {c})', 'int')
+                if t == 'pyval':
+                    return self.hoist(f'(Rt.pyvalInt Gen.intClasses {c})', 'int')
                 raise Untranslatable(f'int() of {t}')
             if name == 'int' and len(args) == 2 and self.const_int(args[1]) == 16:
                 c, t = self.expr(args[0], env)
@@ -971,7 +981,7 @@ class Translator:
             if isinstance(f.value, ast.Name) and f.value.id == 'binascii' and f.attr in ('a2b_hex', 'unhexlify') \
                     and len(node.args) == 1:
                 c, t = self.expr(node.args[0], env)
-                if t not in ('str', 'asciibytes'):
+                if t not in ('str', 'asciibytes', 'bytes'):      # (bytes: their values are read as character codes)
                     raise Untranslatable('unhexlify of something that is not text')
                 return self.hoist(f'(Rt.unhexlify {c})', 'bytes')
             if f.attr == 'join' and isinstance(f.value, ast.Constant) and f.value.value == '' and len(node.args) == 1:
@@ -1263,6 +1273,42 @@ class Translator:
                 return f'let {name} : Bytes := {c};\n  ' + self.stmts(rest, env, ret, loop)
             return self.wrap(go_fb)
         if isinstance(s, ast.Assign) and len(s.targets) == 1 and isinstance(s.targets[0], ast.Tuple) \
+                and len(s.targets[0].elts) == 3 and all(isinstance(t, ast.Name) for t in s.targets[0].elts) \
+                and isinstance(s.value, ast.Call) and isinstance(s.value.func, ast.Attribute) \
+                and isinstance(s.value.func.value, ast.Name) and s.value.func.value.id == 'struct' \
+                and s.value.func.attr == 'unpack' and len(s.value.args) == 2 \
+                and isinstance(s.value.args[0], ast.BinOp) and isinstance(s.value.args[0].right, ast.Constant) \
+                and s.value.args[0].right.value == 's' and isinstance(s.value.args[0].left, ast.BinOp) \
+                and isinstance(s.value.args[0].left.left, ast.Constant) \
+                and re.fullmatch(r'(\d+)s(\d+)s', str(s.value.args[0].left.left.value)) \
+                and isinstance(s.value.args[0].left.right, ast.Call) and isinstance(s.value.args[0].left.right.func, ast.Name) \
+                and s.value.args[0].left.right.func.id == 'str' and len(s.value.args[0].left.right.args) == 1:
+            # a, b, c = struct.unpack("<p>s<q>s" + str(n) + "s", data): three byte strings of p, q and n bytes; struct.error
+            # unless n >= 0 and the data is exactly p + q + n bytes long
+            m = re.fullmatch(r'(\d+)s(\d+)s', s.value.args[0].left.left.value)
+            pw, qw = int(m.group(1)), int(m.group(2))
+            names3 = [t.id for t in s.targets[0].elts]
+
+            def go_unpack3():
+                nc, nt = self.expr(s.value.args[0].left.right.args[0], env)
+                dc, dt = self.expr(s.value.args[1], env)
+                if nt != 'int' or dt not in ('bytes', 'asciibytes'):
+                    raise Untranslatable('struct.unpack with unexpected argument types')
+                v, _ = self.hoist(f'(Rt.unpack3 {pw} {qw} {nc} {dc})', ('tuple', 'bytes', ('tuple', 'bytes', 'bytes')))
+                env2 = dict(env)
+                for nm in names3:
+                    env2[nm] = (nm, 'bytes')
+                return (f'let {names3[0]} : Bytes := ({v}).1;\n  let {names3[1]} : Bytes := ({v}).2.1;\n  '
+                        f'let {names3[2]} : Bytes := ({v}).2.2;\n  ' + self.stmts(rest, env2, ret, loop))
+            return self.wrap(go_unpack3)
+        if isinstance(s, ast.Expr) and isinstance(s.value, ast.Call) and isinstance(s.value.func, ast.Name) \
+                and s.value.func.id == 'int' and len(s.value.args) == 1 and not s.value.keywords:
+            # int(x) for its effect only (the check that x is a number)
+            def go_intcheck():
+                self.expr(s.value, env)
+                return self.stmts(rest, env, ret, loop)
+            return self.wrap(go_intcheck)
+        if isinstance(s, ast.Assign) and len(s.targets) == 1 and isinstance(s.targets[0], ast.Tuple) \
                 and isinstance(s.value, ast.Call) and len(s.targets[0].elts) == 2 \
                 and all(isinstance(t, ast.Name) for t in s.targets[0].elts):
             # a, b = f(...): a call that returns a pair
@@ -1281,7 +1327,9 @@ class Translator:
             name = s.targets[0].id
 
             def go():
-                if isinstance(s.value, (ast.Dict, ast.List)) and not (s.value.keys if isinstance(s.value, ast.Dict) else s.value.elts):
+                if (isinstance(s.value, (ast.Dict, ast.List)) and not (s.value.keys if isinstance(s.value, ast.Dict) else s.value.elts)) \
+                        or (isinstance(s.value, ast.Call) and isinstance(s.value.func, ast.Name) and s.value.func.id == 'dict'
+                            and not s.value.args and not s.value.keywords):
                     if name not in self.hints:
                         raise Untranslatable(f'empty literal assigned to {name} without a type hint')
                     c, t = '[]', self.hints[name]
@@ -1302,6 +1350,36 @@ class Translator:
                 env2[name] = (name, t)
                 return f'let {name} : {lean_type(t)} := {c};\n  ' + self.stmts(rest, env2, ret, loop)
             return self.wrap(go)
+        if isinstance(s, ast.Expr) and isinstance(s.value, ast.Constant) and s.value.value == b'__end_try__':
+            self.catching = None
+            return self.stmts(rest, env, ret, loop)
+        if isinstance(s, ast.Try) and not s.orelse and not s.finalbody and len(s.handlers) == 1 \
+                and not (len(s.body) == 1 and isinstance(s.body[0], ast.Assign) and len(s.body[0].targets) == 1
+                         and isinstance(s.body[0].targets[0], ast.Name)):
+            # try: <several statements>  except (E, ...) as ex: raise <library data error>(...)
+            # every partial operation of the guarded statements is wrapped in the catch; the statements after the `try`
+            # follow a marker that switches the catch off again (branches of an `if` inside the body each carry it)
+            CATCH2 = {'ValueError': 'valueError', 'UnicodeDecodeError': 'unicodeError', 'UnicodeError': 'unicodeError',
+                      'error': 'structError', 'InvalidOperation': 'decimalError', 'Error': 'binasciiError'}
+            h = s.handlers[0]
+            types = h.type.elts if isinstance(h.type, ast.Tuple) else [h.type]
+            names = [t.id if isinstance(t, ast.Name) else t.attr if isinstance(t, ast.Attribute) else None for t in types]
+            if any(n not in CATCH2 for n in names):
+                raise Untranslatable(f'except clause for {names}')
+            hb = h.body
+            if not (len(hb) == 1 and isinstance(hb[0], ast.Raise) and isinstance(hb[0].exc, ast.Call)
+                    and isinstance(hb[0].exc.func, ast.Name)
+                    and hb[0].exc.func.id in ('Iso8583DataError', 'MciIpmDataError', 'CardutilError')):
+                raise Untranslatable('except body that is not a raise of the library error')
+            if getattr(self, 'catching', None):
+                raise Untranslatable('nested try')
+            self.catching = [CATCH2[n] for n in names]
+            try:
+                marker = ast.Expr(value=ast.Constant(b'__end_try__'))
+                return self.stmts(list(s.body) + [marker] + rest, env, ret, loop)
+            except NeedMonad:
+                self.catching = None
+                raise
         if isinstance(s, ast.Try):
             # try: <name> = <expr>  except (E, ...) as ex: raise <library data error>(...)
             CATCH = {'ValueError': 'valueError', 'UnicodeDecodeError': 'unicodeError', 'UnicodeError': 'unicodeError',
@@ -1439,8 +1517,11 @@ class Translator:
         if isinstance(s, ast.If):
             def go():
                 c = self.cond(s.test, env)
+                guard = getattr(self, 'catching', None)       # both branches start under the same `try` (if any)
                 then = self.stmts(s.body if self.terminates(s.body) else s.body + rest, env, ret, loop)
+                self.catching = guard
                 other = self.stmts(s.orelse + rest if not self.terminates(s.orelse) else s.orelse, env, ret, loop)
+                self.catching = guard
                 return f'if {c} then\n    ({then})\n  else\n    ({other})'
             return self.wrap(go)
         if isinstance(s, (ast.While, ast.For)) and not s.orelse:
@@ -1718,7 +1799,7 @@ def translate_function(mod_ast, fdef, ptypes, ret, known, cls=None, opts=None):
         arglist = arglist[1:]
         lean_name = opts.get('lean_name', f'{cls}_{fdef.name}'.replace('__', ''))
     if 'params' in opts:
-        ptypes = dict(opts['params'])
+        ptypes = dict(ptypes, **dict(opts['params']))        # (types given next to 'params' stay as hints for locals)
         arglist = [ast.arg(arg=n) for n, _ in opts['params']]
     if cls is not None and not readonly:
         if not arglist or arglist[0].arg != 'self' or cls not in SELF_STATE:
